@@ -350,7 +350,7 @@ func (c14Engine) BudgetS(tier string) int {
 	return 50
 }
 func (c14Engine) Workers(tier string) int { return 0 }
-func (c14Engine) NewScenario() any         { return &c14Scn{} }
+func (c14Engine) NewScenario() any        { return &c14Scn{} }
 
 func c14GenRun(r *core.Rand, resetVars, resetRand bool, children bool) c14Run {
 	run := c14Run{Act: core.Pick(r, c14Acts), Probe: true}
